@@ -27,8 +27,12 @@ def main():
         if r.returncode != 0:
             print("PATCH DOES NOT APPLY")
             return 3
-        subprocess.check_call(["rsync", "-a", "--exclude", ".git", "--exclude", "_build/replay", "--exclude", "evidence",
-                               ROOT + "/", verif + "/"])
+        # other builds may touch _build/target while we copy: rsync code 24 (vanished files) is harmless
+        rr = subprocess.run(["rsync", "-a", "--exclude", ".git", "--exclude", "_build/replay", "--exclude", "evidence",
+                             "--exclude", "incremental", ROOT + "/", verif + "/"])
+        if rr.returncode not in (0, 24):
+            print("RSYNC FAILED", rr.returncode)
+            return 3
         for d, _, fs in os.walk(os.path.join(verif, "harness")):
             for f in fs:
                 if f == "Cargo.toml":
